@@ -21,7 +21,16 @@ def nontrivial(req, obs):
     return False
 
 
+def shrink(req):
+    f = req.split()
+    if f[0] != "seq" or len(f) < 3 or f[2] == "-":
+        return []
+    ops = f[2]
+    return ["seq %s %s" % (f[1], (ops[:i] + ops[i + 1:]) or "-") for i in range(len(ops))]
+
+
 PROP = {
+    "shrink": shrink,
     "id": "C03",
     # Lean modules holding the property theorems (built on every run) and the generated tie
     "lean_targets": ["WmModel.Props.C03", "WmModel.Props.C03Tie"],
